@@ -126,3 +126,12 @@ func DebugAckJoin(p *core.Program) {
 		fmt.Printf("entry %d: %s\n", k+1, strings.Join(txt, " && "))
 	}
 }
+
+// DebugLoopFlags lists every loop-carried boolean of the module with its monotonicity verdict.
+func DebugLoopFlags(p *core.Program) {
+	for _, fn := range p.ModuleFunctions() {
+		for _, lf := range loopFlags(fn) {
+			fmt.Printf("%s %s %q monotone=%v %s\n", p.Pos(lf.Phi.Pos()), core.FuncName(fn), lf.Phi.Comment, lf.Monotone, lf.Why)
+		}
+	}
+}
